@@ -49,10 +49,73 @@ def build(d):
     if k == "full":
         return ql.FullyConnectedLattice(tuple(d[1]))
     if k == "custom":
-        return ql.CustomizedLattice(tuple(d[1]), np.array(d[2], dtype=int).reshape(len(d[2]), -1))
+        return ql.CustomizedLattice(tuple(d[1]), custom_array(d))
     if k == "layer":
         return ql.LayeredLattice(build(d[1]), d[2])
     raise ValueError(k)
+
+
+CUSTOM_FORMS = ("int", "float", "bool", "complex", "F", "strided", "int8")
+
+
+def custom_form(d):
+    return d[3] if len(d) > 3 else "int"
+
+
+def custom_array(d):
+    """the matrix object handed to CustomizedLattice: d[2] (rows of numbers) in the dtype / memory layout d[3]
+    int (default) | float | bool (non-zero pattern) | complex (v -> v*1j: purely imaginary weights) | F (Fortran order) |
+    strided (every second row/column of a larger array) | int8"""
+    form = custom_form(d)
+    rows = d[2]
+    n = len(rows)
+    if form == "float":
+        return np.array(rows, dtype=float).reshape(n, -1)
+    if form == "complex":
+        return np.array(rows, dtype=float).reshape(n, -1) * 1j
+    M = np.array(rows, dtype=int).reshape(n, -1)
+    if form == "bool":
+        return M != 0
+    if form == "F":
+        return np.asfortranarray(M)
+    if form == "int8":
+        return M.astype(np.int8)
+    if form == "strided":
+        big = np.full((2 * M.shape[0], 2 * M.shape[1]), 9, dtype=int)
+        big[::2, ::2] = M
+        return big[::2, ::2]
+    return M
+
+
+def custom_pattern(d):
+    """non-zero pattern (bool array) of the given matrix, independent of the form"""
+    n = len(d[2])
+    return np.array(d[2], dtype=float).reshape(n, -1) != 0
+
+
+def custom_int_rows(d):
+    """the matrix as exact integers for the Coq model (sign, zero-ness, symmetry and cancellation preserved): float entries are
+    multiples of 1/4 and are scaled by 4; bool = pattern; None when the form has no exact integer reading (complex)"""
+    form = custom_form(d)
+    if form == "complex":
+        return None
+    if form == "float":
+        out = [[4 * float(v) for v in r] for r in d[2]]
+        if any(v != int(v) for r in out for v in r):
+            return None
+        return [[int(v) for v in r] for r in out]
+    if form == "bool":
+        return [[int(v != 0) for v in r] for r in d[2]]
+    return [[int(v) for v in r] for r in d[2]]
+
+
+def modelled(d):
+    """whether the descriptor has an exact Coq term"""
+    if d[0] == "custom":
+        return custom_int_rows(d) is not None
+    if d[0] == "layer":
+        return modelled(d[1])
+    return True
 
 
 def term(d):
@@ -70,7 +133,7 @@ def term(d):
     if k == "full":
         return "(LFull %s)" % zl(d[1])
     if k == "custom":
-        return "(LCustom %s %s)" % (zl(d[1]), ct.lst([zl(r) for r in d[2]]))
+        return "(LCustom %s %s)" % (zl(d[1]), ct.lst([zl(r) for r in custom_int_rows(d)]))
     if k == "layer":
         return "(LLayer %s %s)" % (term(d[1]), ct.z(d[2]))
     raise ValueError(k)
@@ -205,8 +268,10 @@ def ref_pairs(d, latt, coords):
                     out.add((i, j))
         return out
     if k == "custom":
-        M = np.array(d[2], dtype=int).reshape(n, n)
-        return {(i, j) for i in range(n) for j in range(n) if M[i, j] != 0}
+        M = custom_pattern(d)
+        if M.shape != (n, n):
+            return None
+        return {(i, j) for i in range(n) for j in range(n) if M[i, j]}
     return None
 
 
@@ -359,8 +424,8 @@ def build_owned(d, own, variant=0):
     if k == "full":
         return ql.FullyConnectedLattice(keep("shape", list(d[1])))
     if k == "custom":
-        M = np.array(d[2], dtype=int).reshape(len(d[2]), -1)
-        return ql.CustomizedLattice(keep("shape", list(d[1])), keep("adj", (M != 0) if variant else M))
+        M = custom_array(d)
+        return ql.CustomizedLattice(keep("shape", list(d[1])), keep("adj", np.array(M != 0) if variant else np.array(M)))
     if k == "layer":
         return ql.LayeredLattice(keep("base", build_owned(d[1], own, variant)), d[2])
     raise ValueError(k)
@@ -567,21 +632,7 @@ def families(ctx):
     for sh in [(1,), (2,), (5,), (2, 3), (3, 1, 2), (1, 1), ()] + ([(7,), (2, 2, 2)] if T else []):
         out.append(["full", list(sh)])
     rng = ctx.rng
-    for sh in [(1,), (3,), (2, 2), (2, 3), (1, 2, 2)] + ([(6,), (3, 3)] if T else []):
-        n = int(np.prod(sh))
-        for variant in ("sym", "sym", "asym", "diag"):
-            M = [[0] * n for _ in range(n)]
-            for i in range(n):
-                for j in range(i + 1, n):
-                    v = rng.choice([0, 0, 1, 1, -3, 2])
-                    M[i][j] = M[j][i] = v
-            if variant == "asym" and n > 1:
-                i, j = rng.sample(range(n), 2)
-                M[i][j] = 0 if M[i][j] else 1
-            if variant == "diag":
-                k = rng.randrange(n)
-                M[k][k] = 1
-            out.append(["custom", list(sh), M])
+    out += custom_families(rng, T)
     bases = [["int", [3], [True]], ["int", [2, 2], [False, True]], ["int", [1, 3], [False, False]], ["tri", [2, 3], [False, False]],
              ["tri", [3, 3], [True, False]], ["brick", 1, 2, True, False], ["brick", 2, 1, False, True],
              ["hex", 1, 2, True], ["hex", 2, 2, False], ["ofc", 3, 3, False, False], ["ofc", 2, 4, True, False],
@@ -619,6 +670,219 @@ def families(ctx):
                 s1 += s1 % 2
             out.append(["ofc", s0, s1, p0, p1])
     return out
+
+
+def custom_families(rng, T):
+    """customised lattices from weighted / signed / float / bool / imaginary-weight matrices in several dtypes and layouts:
+    symmetric; symmetric pattern with unequal weights (M[i,j] = 2, M[j,i] = 3: the pattern is what counts); pattern not symmetric;
+    one non-zero diagonal entry; diagonal entries that CANCEL in a sum (+2, -2 / +1, +1, -2 / the whole diagonal summing to 0);
+    a non-zero diagonal next to a non-symmetric pattern; wrong shape.  The constructor may only accept what has a symmetric
+    pattern and an entirely zero diagonal (then adjacency_matrix() is that pattern); whatever it accepts goes through the oracle."""
+    out = []
+    vals = [0, 0, 1, 1, -3, 2, -1, 5]
+    k_form = 0
+    for sh in [(1,), (2,), (3,), (2, 2), (2, 3), (1, 2, 2)] + ([(6,), (3, 3), (8,)] if T else []):
+        n = int(np.prod(sh))
+        variants = ["sym", "sym", "weights-asym", "pattern-asym", "diag-one", "diag-cancel2", "diag-cancel3", "diag-all-cancel",
+                    "diag-and-asym", "negative-only"]
+        for variant in variants:
+            M = [[0] * n for _ in range(n)]
+            for i in range(n):
+                for j in range(i + 1, n):
+                    v = rng.choice(vals)
+                    if variant == "negative-only" and v:
+                        v = -abs(v)
+                    M[i][j] = M[j][i] = v
+            if variant == "weights-asym":
+                if n < 2:
+                    continue
+                i, j = rng.sample(range(n), 2)
+                M[i][j], M[j][i] = 2, 3
+            if variant in ("pattern-asym", "diag-and-asym"):
+                if n < 2:
+                    continue
+                i, j = rng.sample(range(n), 2)
+                M[i][j], M[j][i] = (0, 4) if M[i][j] else (1, 0)
+            if variant in ("diag-one", "diag-and-asym"):
+                k = rng.randrange(n)
+                M[k][k] = rng.choice([1, -1, 2])
+            if variant == "diag-cancel2":
+                if n < 2:
+                    continue
+                i, j = rng.sample(range(n), 2)
+                M[i][i], M[j][j] = 2, -2
+            if variant == "diag-cancel3":
+                if n < 3:
+                    continue
+                i, j, k = rng.sample(range(n), 3)
+                M[i][i], M[j][j], M[k][k] = 1, 1, -2
+            if variant == "diag-all-cancel":
+                if n < 2:
+                    continue
+                dg = [rng.choice([1, 2, 3]) for _ in range(n - 1)]
+                for i, v in enumerate(dg):
+                    M[i][i] = v
+                M[n - 1][n - 1] = -sum(dg)
+            # every variant in two forms, rotating through the dtype / layout list (float: quarter-integer weights)
+            for _ in range(2):
+                form = CUSTOM_FORMS[k_form % len(CUSTOM_FORMS)]
+                k_form += 1
+                if form == "float":
+                    out.append(["custom", list(sh), [[v / 4.0 for v in r] for r in M], "float"])
+                elif form == "int":
+                    out.append(["custom", list(sh), M])
+                else:
+                    out.append(["custom", list(sh), M, form])
+        # wrong shape: one row/column too many, a vector
+        out.append(["custom", list(sh), [[0] * (n + 1) for _ in range(n + 1)]])
+    return out
+
+
+LONG_EXTENTS = [13, 14, 16, 21, 27, 33, 40]
+
+
+def long_families(ctx):
+    """LONG THIN lattices of every class (one extent up to 40, the other(s) 1-3): thresholds in index arithmetic (digit counts,
+    float rounding of sqrt(3)-scaled coordinates, parity patterns repeating with period 2-4) only show beyond the exhaustive
+    box.  Oracle only (numpy reference, no Coq case, no history)."""
+    T = ctx.thorough
+    longs = list(range(10, 41)) if T else LONG_EXTENTS
+    out = []
+    for n in longs:
+        for w in ((1, 2, 3) if T or n in (13, 40) else (1, 2) if n % 2 else (3,)):
+            for (s0, s1) in ((n, w), (w, n)):
+                for up in (True, False):
+                    out.append(["hex", s0, s1, up])
+                    if T or w <= 2:
+                        out.append(["brick", s0, s1, up, (n + w) % 2 == 0])
+                        if T:
+                            out.append(["brick", s0, s1, up, (n + w) % 2 == 1])
+                for p0 in (False, True):
+                    for p1 in (False, True):
+                        if not ((p0 and s0 % 2) or (p1 and s1 % 2)) and (T or p0 == p1 or w == 2):
+                            out.append(["ofc", s0, s1, p0, p1])
+                for pbc in itertools.product((False, True), repeat=2):
+                    if T or w != 2:
+                        out.append(["tri", [s0, s1], list(pbc)])
+                    if T or w == 2:
+                        out.append(["int", [s0, s1], list(pbc)])
+        for p in (False, True):
+            out.append(["int", [n], [p]])
+            out.append(["tri", [n], [p]])
+        out.append(["int", [1, n, 1], [n % 2 == 0, True, False]])
+        out.append(["int", [2, 1, n], [False, n % 2 == 1, True]])
+    for n in (13, 40) if not T else (13, 17, 32, 40, 64):
+        out.append(["full", [n]])
+        out.append(["full", [1, n]])
+        path = [[1 if abs(i - j) == 1 else 0 for j in range(n)] for i in range(n)]
+        out.append(["custom", [n], path])
+        out.append(["custom", [n, 1], path, "bool"])
+        out.append(["custom", [1, n], [[-v / 4.0 for v in r] for r in path], "float"])
+        out.append(["layer", ["int", [2], [False]], n])
+        out.append(["layer", ["hex", 1, 1, True], n if n <= 20 else 20])
+        out.append(["layer", ["int", [n], [True]], 2])
+        out.append(["layer", ["hex", n, 1, False], 2])
+        out.append(["layer", ["custom", [n], path], 3])
+    return out
+
+
+ARGFORM_BASES = [["int", [2, 3], [False, False]], ["int", [3, 2], [True, True]], ["int", [4], [True]], ["tri", [3, 3], [True, True]],
+                 ["tri", [2, 3], [False, False]], ["ofc", 2, 4, True, True], ["ofc", 3, 3, False, False], ["hex", 2, 3, True],
+                 ["hex", 14, 1, True], ["hex", 1, 14, False], ["brick", 2, 3, True, False], ["brick", 3, 2, False, True],
+                 ["full", [4]], ["full", [2, 3]], ["custom", [3], [[0, 1, 0], [1, 0, 2], [0, 2, 0]]]]
+
+
+def argform_variants(d):
+    """the same lattice requested through other argument forms: shape as list / numpy array / numpy integers, scalar pbc,
+    defaults omitted, FullyConnectedLattice(int), coordinates / indices handed back as lists, arrays, numpy integers"""
+    import qib.lattice as ql
+    k = d[0]
+    out = []
+    if k in ("int", "tri"):
+        cls = ql.IntegerLattice if k == "int" else ql.TriangularLattice
+        sh, pbc = d[1], [bool(b) for b in d[2]]
+        out.append(("shape-ndarray", lambda: cls(np.array(sh), pbc=tuple(pbc))))
+        out.append(("shape-numpy-ints", lambda: cls(tuple(np.int64(v) for v in sh), pbc=np.array(pbc))))
+        if all(pbc) or not any(pbc):
+            out.append(("pbc-scalar", lambda: cls(tuple(sh), pbc=bool(pbc[0]) if pbc else False)))
+        if not any(pbc):
+            out.append(("pbc-omitted", lambda: cls(list(sh))))
+    elif k == "ofc":
+        sh, pbc = [d[1], d[2]], [bool(d[3]), bool(d[4])]
+        out.append(("shape-ndarray", lambda: ql.OddFaceCenteredLattice(np.array(sh), pbc=list(pbc))))
+        if pbc[0] == pbc[1]:
+            out.append(("pbc-scalar", lambda: ql.OddFaceCenteredLattice(tuple(sh), pbc=pbc[0])))
+        if not any(pbc):
+            out.append(("pbc-omitted", lambda: ql.OddFaceCenteredLattice(tuple(sh))))
+    elif k == "hex":
+        out.append(("shape-ndarray", lambda: ql.HexagonalLattice(np.array([d[1], d[2]]), convention=conv(d[3]))))
+        out.append(("shape-numpy-ints", lambda: ql.HexagonalLattice([np.int64(d[1]), np.int64(d[2])], pbc=False, convention=conv(d[3]))))
+        if d[3]:
+            out.append(("convention-omitted", lambda: ql.HexagonalLattice((d[1], d[2]))))
+    elif k == "brick":
+        out.append(("shape-ndarray", lambda: ql.BrickLattice(np.array([d[1], d[2]]), delete=bool(d[4]), convention=conv(d[3]))))
+        if d[3] and not d[4]:
+            out.append(("defaults-omitted", lambda: ql.BrickLattice((d[1], d[2]))))
+    elif k == "full":
+        out.append(("shape-ndarray", lambda: ql.FullyConnectedLattice(np.array(d[1]))))
+        if len(d[1]) == 1:
+            out.append(("shape-int", lambda: ql.FullyConnectedLattice(int(d[1][0]))))
+    elif k == "custom":
+        out.append(("shape-ndarray", lambda: ql.CustomizedLattice(np.array(d[1]), custom_array(d))))
+    return out
+
+
+def argform_oracle(ctx, d, fail=None):
+    """results must not depend on the FORM in which equal arguments are handed over"""
+    cls = CLASSNAME[d[0]]
+    fail = fail or ctx.fail
+    try:
+        base = build(d)
+        ref, _, coords = observe(base)
+    except Exception:
+        return
+    for name, mk in argform_variants(d):
+        inp = {"lattice": d, "argument_form": name}
+        try:
+            latt = mk()
+        except Exception as e:
+            # an argument form the constructor refuses is no lattice: nothing claimed
+            ctx.count("argform:%s:refused" % name)
+            continue
+        ctx.count("argform:" + name)
+        try:
+            snp, _, _ = observe(latt)
+        except Exception as e:
+            fail(cls + ":raises-for-argument-form:" + name, inp, "same results as with tuples of Python ints", repr(e)[:200])
+            continue
+        df = snap_diff(ref, snp)
+        if df is not None:
+            fail(cls + ":" + df + "-depends-on-argument-form:" + name, inp, "same results as with tuples of Python ints", {"differs": df})
+    # coordinates / indices handed back in other containers and integer types
+    n = ref[0]
+    for i in sorted({0, n // 2, n - 1} if n else set()):
+        c = coords[i]
+        forms = [("coord-list", lambda: list(c)), ("coord-ndarray", lambda: np.array(c))]
+        if all(isinstance(v, (int, np.integer)) for v in c):
+            forms.append(("coord-numpy-ints", lambda: tuple(np.int64(v) for v in c)))
+        for name, mk in forms:
+            try:
+                r = base.coord_to_index(mk())
+            except Exception as e:
+                ctx.count("argform:%s:refused" % name)
+                continue
+            ctx.count("argform:" + name)
+            if r is None or int(r) != i:
+                fail(cls + ":coord_to_index-depends-on-argument-form:" + name, {"lattice": d, "argument_form": name, "i": i}, i,
+                     None if r is None else int(r))
+        try:
+            c2 = base.index_to_coord(np.int64(i))
+            if tuple(float(v) for v in np.asarray(c2, dtype=float).reshape(-1)) != ref[2][i]:
+                fail(cls + ":index_to_coord-depends-on-argument-form:index-numpy-int", {"lattice": d, "argument_form": "index-numpy-int", "i": i},
+                     ref[2][i], repr(c2))
+            ctx.count("argform:index-numpy-int")
+        except Exception:
+            ctx.count("argform:index-numpy-int:refused")
 
 
 def is_nontrivial(d):
@@ -692,7 +956,10 @@ def run(ctx):
         cls = CLASSNAME[d[0]]
         ctx.count(cls)
         nt = is_nontrivial(d)
-        L = term(d)
+        has_model = modelled(d)
+        L = term(d) if has_model else None
+        if d[0] == "custom":
+            ctx.count("custom_form=" + custom_form(d))
         res = oracle(ctx, d)
         if res is None:
             # the constructor refuses (odd periodic face-centred lattice, invalid customised matrix)
@@ -701,10 +968,22 @@ def run(ctx):
                 continue
             except Exception:
                 ctx.count(cls + ":refused")
-                add("CAdj %s None" % L, {"lattice": d, "op": "adjacency_matrix"}, nt)
+                if d[0] == "custom":
+                    # what may be refused: wrong shape, a non-symmetric pattern, a non-zero diagonal entry - nothing else
+                    P = custom_pattern(d)
+                    n0 = int(np.prod(d[1])) if len(d[1]) else 1
+                    if P.shape == (n0, n0) and np.array_equal(P, P.T) and not P.diagonal().any():
+                        ctx.count("CustomizedLattice:refused-a-symmetric-zero-diagonal-matrix")
+                if has_model:
+                    add("CAdj %s None" % L, {"lattice": d, "op": "adjacency_matrix"}, nt)
                 continue
         latt, A, coords = res
         history_oracle(ctx, d)
+        if not has_model:
+            ctx.evaluations += 1
+            if nt:
+                ctx.nontriv({"lattice": d, "op": "oracle"})
+            continue
         n = int(latt.nsites)
         add("CNs %s %s" % (L, ct.z(n)), {"lattice": d, "op": "nsites"}, nt)
         rows = [[int(j) for j in np.nonzero(A[i])[0]] for i in range(n)]
@@ -753,6 +1032,34 @@ def run(ctx):
             add("CEdge %s %s %s" % (ct.z(s0), ct.z(s1), ct.lst(tab)), {"lattice": d, "op": "edge_to_odd_face_index"}, nt)
             edge_oracle(ctx, d, latt, coords)
 
+    # ---- long thin lattices of every class (numpy oracle only) and argument forms
+    ctx.rules.append(
+        "long thin lattices (oracle only): every class with one extent in %s and the other(s) 1-3 (hexagonal / brick in both conventions, "
+        "face-centred with all admissible flags, triangular / integer with all flag pairs, 1-d and 3-d integer, fully connected, path-graph "
+        "customised lattices in int / bool / float form, layered with up to 40 layers and over long bases); argument forms: shape as ndarray / "
+        "numpy ints / list, scalar and omitted pbc, omitted convention / delete, FullyConnectedLattice(int), coordinates as list / ndarray / "
+        "numpy ints, numpy index - results must equal those for tuples of Python ints; customised lattices: weighted / signed / float / bool / "
+        "imaginary / int8 / Fortran / strided matrices, symmetric, unequal weights on a symmetric pattern, non-symmetric pattern, one non-zero "
+        "diagonal entry, diagonal entries cancelling in a sum (+2,-2 / +1,+1,-2 / whole diagonal), wrong shape"
+        % ("10..40" if ctx.thorough else LONG_EXTENTS))
+    nlong = 0
+    for d in long_families(ctx):
+        nlong += 1
+        ctx.count("long:" + CLASSNAME[d[0]])
+        res = oracle(ctx, d)
+        if res is None:
+            try:
+                build(d)
+            except Exception as e:
+                ctx.fail(CLASSNAME[d[0]] + ":constructor-refuses-a-long-lattice", {"lattice": d}, "a lattice", repr(e)[:200])
+            continue
+        ctx.evaluations += 1
+        ctx.nontriv({"lattice": d, "op": "oracle (long)"})
+        if d[0] == "ofc" and res[2] is not None and not (d[3] or d[4]):
+            edge_oracle(ctx, d, res[0], res[2])
+    ctx.count("long-lattices", nlong)
+    for d in ARGFORM_BASES:
+        argform_oracle(ctx, d)
     ctx.log("implementation run and oracles done: %d cases" % len(cases))
     dis = ctx.cases("lattice", HEADER, cases)
     for i, dsc in dis[:8]:
@@ -910,8 +1217,10 @@ def replay(ctx, data):
     res = oracle(ctx, d, fail=fail)
     if res is not None and d[0] == "ofc" and res[2] is not None:
         edge_oracle(ctx, d, res[0], res[2], fail=fail)
-    if res is not None:
+    if res is not None and int(res[0].nsites) <= 400:
         history_oracle(ctx, d, fail=fail)
+    if "argument_form" in inp:
+        argform_oracle(ctx, d, fail=fail)
     for s, i, e, o in hit:
         if s == sig:
             ctx.fail(sig, inp, e, o)
